@@ -15,7 +15,12 @@ Import ListNotations.
 Open Scope string_scope.
 
 Definition TOL : Z := (-30)%Z.
-Definition FLOOR : Q := D2Q 1 (-1074).
+(* absolute floor of the comparison.  Where a factor of activity() (an exp(-k t) of order 1e-320) falls into the
+   subnormal range it keeps only a few bits, and the product with a prefactor of order 1e12 is a result of order
+   1e-308 whose relative error is 1e-4 although every normal-range result is good to 2^-30.  2^-997 (7.5e-301 uCi) is
+   above the largest such error for prefactors up to 1e23 and three hundred orders of magnitude below anything
+   measurable (seed 8 of the multi-seed sweep: 115-In burnt up at fluence 8e15 for 8751 h). *)
+Definition FLOOR : Q := D2Q 1 (-997).
 
 (* Z, A, index of the row in isotope.neutron_activation, [mass; fluence; Cd_ratio; fast_ratio; exposure],
    rest_times, outcome (PNone: no entry; PE: raised; PL: activities) *)
